@@ -292,6 +292,8 @@ def vp(m, name, args, g, I):
             v0 = var('nd_%d' % i, w)
             v = m.nondets[i] = ZExt(v0, w, 64) if w < 64 else v0
             m.ranges['nd_%d' % i] = (0, (1 << w) - 1)
+            from . import term as _T
+            _T.RANGES['nd_%d' % i] = (lo, hi)
             # input ranges constrain the inputs themselves, not a path: they hold for every obligation
             if lo > 0: m.gassumptions.append(Cmp('ule', lo, v0, w))
             if hi < (1 << w) - 1: m.gassumptions.append(Cmp('ule', v0, hi, w))
